@@ -37,7 +37,10 @@ ASSUMPTIONS = [
 ]
 
 NAMES = ['a', 'b', 'c', 'data', 'class', 'x y', 'a.b', 'a-b', '1a', 'é', '',
-         'def', '_x', 'B', 'ключ', 'a b c']
+         'def', '_x', 'B', 'ключ', 'a b c',
+         # identifiers whose NFKC form differs from them, next to that form
+         '\ufb01le', 'file', '\u00b5m', '\u03bcm', '\u00aa', 'e\u0301cole',
+         '\uff21\uff22', 'AB']
 
 
 def gen_key(rng, names, maxdepth):
@@ -64,6 +67,17 @@ def gen_one(rng, tier):
 
 
 def gen_cases(tier, seed):
+    for i in range(3 if tier == 'quick' else 48):
+        rng = random.Random(f'C17/scale/{seed}/{tier}/{i}')
+        depth = rng.choice([33, 40, 60])
+        chain = '/'.join(rng.choice(['a', 'b', 'x y']) for _ in range(depth))
+        ops = [['set', chain, 'h']]
+        for _ in range(15):
+            cut = rng.randrange(1, depth)
+            ops.append(['set', '/'.join(chain.split('/')[:cut])
+                        + '/' + rng.choice(['leaf', 'n o', 'c']),
+                        rng.choice(['h', 'h', 'm'])])
+        yield {'ops': ops, 'absent': ['nope', 'zz9']}
     n = 1000 if tier == 'quick' else 16 * 5000
     for i in range(n):
         yield gen_one(random.Random(f'C17/{seed}/{tier}/{i}'), tier)
